@@ -1844,7 +1844,7 @@ fn main() {
 			},
 			Err(_) => {
 				// panic while building the network: not a run
-				panic_msgs.push(format!("run {} setup panic", run));
+				panic_msgs.push(format!("run {} setup panic: {}", run, LAST_PANIC.lock().unwrap().clone()));
 				log.lock().unwrap().clear();
 			},
 		}
@@ -1857,7 +1857,7 @@ fn main() {
 		}
 	}
 	tw.flush();
-	let summary = json!({"runs": scripts.len(), "events": tw.lines, "panics": panics, "executed": executed, "skipped": skipped, "setup_failures": panic_msgs.len()});
+	let summary = json!({"runs": scripts.len(), "events": tw.lines, "panics": panics, "executed": executed, "skipped": skipped, "setup_failures": panic_msgs.len(), "setup_panic": panic_msgs.first().cloned().unwrap_or_default()});
 	std::fs::write(format!("{}.summary", out), summary.to_string()).unwrap();
 	eprintln!("SUMMARY {}", summary);
 	std::process::exit(0);
